@@ -1,6 +1,7 @@
 """C10 - customising one loader or dumper class never changes another (inductive ownership invariant)."""
 import sys
 
+from sa import rules_r6 as R6
 from sa import report, effects as E, rules_registry as RR
 from sa import rules_extra as RX
 
@@ -17,16 +18,18 @@ def run(ctx, repo):
     ctx.trust('CPython ast; the C3 linearisation and __all__/star-import resolution of sa.srcmodel; '
               'the list of mutating method names in sa.astutil.MUTATORS')
     ctx.assume('no code outside lib/yaml and yaml/_yaml.pyx writes the registries (user code is the subject of the histories)')
-    RR.r_registry_decl(ctx, repo)
-    RR.r_cow(ctx, repo)
-    RR.r_sole_writer(ctx, repo)
-    E.r_global_readonly(ctx, repo)
-    RR.r_fanout(ctx, repo)
-    RR.r_dispatch_self(ctx, repo)
+    ctx.call(RR.r_registry_decl, repo)
+    ctx.call(RR.r_cow, repo)
+    ctx.call(RR.r_sole_writer, repo)
+    ctx.call(E.r_global_readonly, repo)
+    ctx.call(RR.r_fanout, repo)
+    ctx.call(RR.r_dispatch_self, repo)
     rm = RR.model(repo)
     ctx.extra['registries'] = {n: [w.func.qualname for w in r.writers] for n, r in rm.regs.items()}
     ctx.extra['registrations_folded'] = len(rm.registrations)
-    RX.r_cow_all_paths(ctx, repo)
+    ctx.call(RX.r_cow_all_paths, repo)
+    ctx.call(R6.r_cow_minimal, repo)
+
 
 if __name__ == '__main__':
     sys.exit(report.main('C10', 'proof', run))
